@@ -15,6 +15,15 @@
 (* nothing (RejectInert), a valid one only the entry of the key that signed it (BookLegit).          *)
 (* Deviation constants EarlyBook / TrustSource switch two history-dependent defects on (controls).   *)
 (*                                                                                                  *)
+(* Records : `noted` = what an overlay keeps about a key OUTSIDE the verified-peer table (routing    *)
+(* nodes, stored peers, request caches, liveness metrics of Peer objects ...).  Every change of the  *)
+(* records of a key happens in a delivery that ran a handler - for an authenticated message id one   *)
+(* with a valid signature (NotesLegit); a rejected datagram changes none (RejectInert).              *)
+(* Key memory : `kres` = the key object that the serialized form of a key resolves to in the         *)
+(* receiving process (ECCrypto.key_from_public_bin).  It is the identity whatever keys were parsed   *)
+(* before (KeyResolution); long histories of deliveries under many keys (crowds) must not change it. *)
+(* Deviation constants EarlyNote / StaleKeys switch the two corresponding defects on (controls).     *)
+(*                                                                                                  *)
 (* The table ShippedAuthenticated below is written BY HAND from the protocol (which messages the    *)
 (* senders sign), not derived from the decorators found on the handlers.                            *)
 EXTENDS Naturals, FiniteSets, TLC
@@ -38,8 +47,13 @@ CONSTANTS Overlays,       \* overlay classes that can be loaded on the receiving
           MaxAcq,         \* bound on acquaintances made before the window of observation (history)
           EarlyBook,      \* FALSE = as it should be. TRUE = deviation: the verified-peer entry of the carried key is
                           \*   updated with the source address BEFORE the signature verdict is asserted
-          TrustSource     \* FALSE = as it should be. TRUE = deviation: a signature that verifies under the key of the
+          TrustSource,    \* FALSE = as it should be. TRUE = deviation: a signature that verifies under the key of the
                           \*   peer already known at the source address is accepted (identity still = carried key)
+          EarlyNote,      \* FALSE = as it should be. TRUE = deviation: the records kept about the carried key (liveness
+                          \*   metrics of a stored node ...) are updated BEFORE the signature verdict is asserted
+          StaleKeys,      \* FALSE = as it should be. TRUE = deviation: a bounded memory of parsed keys with a stale
+                          \*   index - the bytes of a key parsed earlier may come to resolve to a key parsed later
+          WithNotes       \* FALSE keeps the exhaustive instances small: RunAny does not enumerate record changes
 
 NoKey    == "nokey"      \* no parsable key at byte 23
 NoPrefix == "p?"         \* not the prefix of any known overlay / too short
@@ -114,13 +128,18 @@ VARIABLES cur,        \* the datagram that is about to arrive
           ndel,       \* number of deliveries so far
           book,       \* [Overlays -> [AllKeys -> SUBSET Addrs]] : Network.verified_peers as "key lives at these
                       \*   addresses" (Peer.addresses of the verified-peer entry; {} = no entry / no address)
-          acq         \* history : <<o, key, addr>> acquaintances made before the window of observation
-vars == <<cur, inflight, muts, seen, signed, invoked, verified, ndel, book, acq>>
+          acq,        \* history : <<o, key, addr>> acquaintances made before the window of observation
+          noted,      \* history : [o, n, k] the records overlay o keeps about key k (outside the verified-peer table)
+                      \*   changed in delivery number n
+          kres,       \* [Keys -> Keys] : the key object the serialized form of a key resolves to (key_from_public_bin)
+          parsed      \* history : keys whose serialized form the receiving process has parsed
+vars == <<cur, inflight, muts, seen, signed, invoked, verified, ndel, book, acq, noted, kres, parsed>>
 
 NoBook == [k \in AllKeys |-> {}]
 Init == /\ cur = Blank /\ inflight = FALSE /\ muts = 0 /\ seen = {} /\ signed = {}
         /\ invoked = {} /\ verified = [o \in Overlays |-> {}] /\ ndel = 0
         /\ book = [o \in Overlays |-> NoBook] /\ acq = {}
+        /\ noted = {} /\ kres = [k \in Keys |-> k] /\ parsed = {}
 
 (* state of the verified-peer table that the acquaintances alone account for *)
 AcqBook(o)     == [k \in AllKeys |-> {a \in Addrs : <<o, k, a>> \in acq}]
@@ -135,7 +154,7 @@ SigValid(d) == /\ d.sig.kind = "sig" /\ d.key \in Keys
 (* unless a deviation constant is switched on; in particular independent of o, a and of the history)        *)
 ImplValid(d, o, a) ==
   IF ~CheckSig THEN d.key \in Keys
-  ELSE \/ /\ d.sig.kind = "sig" /\ d.key \in Keys /\ d.sig.signer = d.key
+  ELSE \/ /\ d.sig.kind = "sig" /\ d.key \in Keys /\ d.sig.signer = kres[d.key]   \* (kres[k] = k: KeyResolution)
           /\ IF CoverAll THEN d.sig.covers = ContentOf(d)
              ELSE d.sig.covers.key = d.key /\ d.sig.covers.body = d.body
        \/ /\ TrustSource                      \* deviation: the key of whoever is known at the source address
@@ -150,7 +169,8 @@ Acquaint(o, k, a) ==
   /\ acq' = acq \cup {<<o, k, a>>}
   /\ book' = [book EXCEPT ![o][k] = @ \cup {a}]
   /\ verified' = [verified EXCEPT ![o] = @ \cup {k}]
-  /\ UNCHANGED <<cur, inflight, muts, seen, signed, invoked, ndel>>
+  /\ parsed' = parsed \cup {k}            \* (its datagrams were parsed then)
+  /\ UNCHANGED <<cur, inflight, muts, seen, signed, invoked, ndel, noted, kres>>
 
 (* The receiving node restarts: everything learned inside the window is forgotten, the acquaintances are     *)
 (* made again (the driver builds a new receiving node after a delivery that touched its state).             *)
@@ -158,7 +178,7 @@ Restart ==
   /\ ~inflight /\ ndel < MaxDeliver
   /\ book' = [o \in Overlays |-> AcqBook(o)]
   /\ verified' = [o \in Overlays |-> AcqVerified(o)]
-  /\ UNCHANGED <<cur, inflight, muts, seen, signed, invoked, ndel, acq>>
+  /\ UNCHANGED <<cur, inflight, muts, seen, signed, invoked, ndel, acq, noted, kres, parsed>>
 
 (* EZPackOverlay.ezr_pack / _ez_pack on an honest (or attacker owned) node : sign everything *)
 Send(o, k, m, b) ==
@@ -169,7 +189,7 @@ Send(o, k, m, b) ==
          d == [prefix |-> c.prefix, msgid |-> m, key |-> k, body |-> b, sig |-> SigOf(k, c)]
      IN /\ cur' = d /\ seen' = seen \cup {d} /\ signed' = signed \cup {<<k, c>>}
   /\ inflight' = TRUE /\ muts' = 0
-  /\ UNCHANGED <<invoked, verified, ndel, book, acq>>
+  /\ UNCHANGED <<invoked, verified, ndel, book, acq, noted, kres, parsed>>
 
 (* the adversary fabricates a datagram from scratch: no signature, noise, or a signature made with one of *)
 (* its own keys over the content itself or over a content it has seen                                      *)
@@ -179,7 +199,7 @@ Inject(d) ==
   /\ d.sig \in InjectSigs(ContentOf(d))
   /\ signed' = IF d.sig.kind = "sig" THEN signed \cup {<<d.sig.signer, d.sig.covers>>} ELSE signed
   /\ cur' = d /\ seen' = seen \cup {d} /\ inflight' = TRUE /\ muts' = 0
-  /\ UNCHANGED <<invoked, verified, ndel, book, acq>>
+  /\ UNCHANGED <<invoked, verified, ndel, book, acq, noted, kres, parsed>>
 
 (* the possible results of one mutation of datagram s (S = what the adversary has seen) *)
 MutSet(name, s, S) ==
@@ -210,7 +230,7 @@ Mutate(name, s, t) ==
   /\ t \in MutSet(name, s, seen)
   /\ cur' = t /\ inflight' = TRUE
   /\ signed' = IF name = "Resign" THEN signed \cup {<<t.sig.signer, t.sig.covers>>} ELSE signed
-  /\ UNCHANGED <<seen, invoked, verified, ndel, book, acq>>
+  /\ UNCHANGED <<seen, invoked, verified, ndel, book, acq, noted, kres, parsed>>
 
 Sources == IF inflight THEN {cur} ELSE seen
 Noop            == \E s \in Sources : \E t \in MutSet("Noop", s, seen) : Mutate("Noop", s, t)   \* plain replay
@@ -232,8 +252,17 @@ SpliceSig       == \E s \in Sources : \E t \in MutSet("SpliceSig", s, seen) : Mu
 (* decode_map[msgid]; the handler proper runs with `peer`; it may add that peer as verified.  nb = the      *)
 (* verified-peer table of o afterwards: a valid datagram may change the entry of the key that signed it     *)
 (* (source address added / entry re-pointed / addresses claimed in the signed payload), nothing else.       *)
-Run(o, peer, newv, a, nb) ==
-  /\ inflight /\ a \in Addrs
+(* the receiving process parses the serialized key k of a datagram (key_from_public_bin) *)
+KeyMemory(k) ==
+  /\ parsed' = IF k \in Keys THEN parsed \cup {k} ELSE parsed
+  /\ IF StaleKeys /\ k \in Keys \ parsed      \* deviation: k takes the slot of a key v parsed earlier, v's index entry stays
+     THEN \E v \in parsed \cup {k} : kres' = IF v = k THEN kres ELSE [kres EXCEPT ![v] = k]
+     ELSE kres' = kres
+HasRecord(o, k) == (\E a \in Addrs : <<o, k, a>> \in acq) \/ (\E t \in noted : t.o = o /\ t.k = k)
+
+(* tk = the keys whose records (outside the verified-peer table) the delivery changed *)
+Run(o, peer, newv, a, nb, tk) ==
+  /\ inflight /\ a \in Addrs /\ tk \subseteq Keys
   /\ cur.prefix = PrefixOf[o] /\ cur.msgid # NoMsg
   /\ nb \in [AllKeys -> SUBSET Addrs]
   /\ IF cur.msgid \in Authenticated[o]
@@ -245,6 +274,8 @@ Run(o, peer, newv, a, nb) ==
                                entry |-> nb[cur.key]]}
   /\ verified' = [verified EXCEPT ![o] = @ \cup newv]
   /\ book' = [book EXCEPT ![o] = nb]
+  /\ noted' = noted \cup {[o |-> o, n |-> ndel, k |-> k] : k \in tk}
+  /\ KeyMemory(cur.key)
   /\ inflight' = FALSE /\ ndel' = ndel + 1 /\ UNCHANGED <<cur, muts, seen, signed, acq>>
 
 (* the datagram, arriving from address a, is dropped (other prefix, unknown id, failed check, or the        *)
@@ -256,13 +287,20 @@ Drop(o, a) ==
                 /\ book[o][cur.key] # {}
              THEN [book EXCEPT ![o][cur.key] = @ \cup {a}]
              ELSE book
+  /\ noted' = IF /\ EarlyNote      \* deviation: "the sender pinged us: refresh its metrics" placed above the verdict
+                 /\ cur.prefix = PrefixOf[o] /\ cur.msgid \in Authenticated[o] /\ cur.key \in Keys
+                 /\ HasRecord(o, cur.key)
+              THEN noted \cup {[o |-> o, n |-> ndel, k |-> cur.key]}
+              ELSE noted
+  /\ KeyMemory(cur.key)
   /\ UNCHANGED <<cur, muts, seen, signed, invoked, verified, acq>>
 
 SendAny   == \E o \in Overlays, k \in Keys, m \in MsgIds, b \in Bodies : Send(o, k, m, b)
 InjectAny == \E c \in [prefix : Prefixes, msgid : MsgIds, key : AllKeys, body : Bodies] : \E g \in InjectSigs(c) :
                Inject([prefix |-> c.prefix, msgid |-> c.msgid, key |-> c.key, body |-> c.body, sig |-> g])
 RunAny    == \E o \in Overlays, p \in AllKeys, nv \in SUBSET AllKeys, a \in Addrs, entry \in SUBSET Addrs :
-               Run(o, p, nv, a, [book[o] EXCEPT ![cur.key] = entry])
+               \E tk \in (IF WithNotes THEN SUBSET Keys ELSE {{}}) :
+                 Run(o, p, nv, a, [book[o] EXCEPT ![cur.key] = entry], tk)
 DropAny   == \E o \in Overlays, a \in Addrs : Drop(o, a)
 AcqAny    == \E o \in Overlays, k \in Keys, a \in Addrs : Acquaint(o, k, a)
 
@@ -279,6 +317,7 @@ Spec == Init /\ [][Next]_vars
 TypeOK == /\ cur \in Datagram /\ inflight \in BOOLEAN /\ muts \in 0..MaxMut
           /\ seen \subseteq Datagram /\ ndel \in Nat /\ \A o \in Overlays : verified[o] \subseteq AllKeys
           /\ book \in [Overlays -> [AllKeys -> SUBSET Addrs]] /\ acq \subseteq Overlays \X Keys \X Addrs
+          /\ noted \subseteq [o : Overlays, n : Nat, k : Keys] /\ kres \in [Keys -> Keys] /\ parsed \subseteq Keys
 
 (* the adversary model is sound: a signature by an honest key exists only over what that key signed *)
 Unforgeable == \A d \in (IF inflight THEN {cur} ELSE {}) \cup seen :
@@ -303,7 +342,17 @@ BookLegit == \A o \in Overlays : \A k \in Keys : \A a \in book[o][k] :
 BookNoKeyEmpty == \A o \in Overlays : book[o][NoKey] = {}
 
 (* a delivery that runs no handler (a rejected datagram) changes nothing the node believes about its peers *)
-RejectInert == [][(inflight /\ ~inflight' /\ invoked' = invoked) => (book' = book /\ verified' = verified)]_vars
+RejectInert == [][(inflight /\ ~inflight' /\ invoked' = invoked) =>
+                    (book' = book /\ verified' = verified /\ noted' = noted)]_vars
+
+(* whatever a node records about a key (outside the table too) it records in a delivery that ran a handler; for an   *)
+(* authenticated message id that datagram carried a valid signature of a content its key really signed              *)
+NotesLegit == \A t \in noted : \E i \in invoked :
+                /\ i.o = t.o /\ i.n = t.n
+                /\ i.msgid \in Authenticated[i.o] => SigValid(i.d) /\ <<i.d.key, ContentOf(i.d)>> \in signed
+
+(* the serialized form of a key resolves to that key, whatever was parsed before *)
+KeyResolution == \A k \in Keys : kres[k] = k
 
 OverlaySeparation == \A i \in invoked : i.msgid \in Authenticated[i.o] =>
                        i.d.sig.kind = "sig" /\ i.d.sig.covers.prefix = PrefixOf[i.o]
